@@ -15,7 +15,8 @@ RULE = (
     "at byte 72) and 3 (header_length 104/112/>112), cluster_bits 9..16 plus 20/21 (all 9..21 thorough), standard "
     "and extended L2 (every sub-cluster bitmap class), cluster kinds normal / zero-plain / zero-alloc / unallocated "
     "/ compressed (raw deflate, several compressed clusters packed byte-granularly into shared host clusters, "
-    "streams tuned to be almost cluster-sized), oversized L1, absent L2 tables, tables and clusters placed "
+    "streams tuned to be almost cluster-sized), oversized L1, absent L2 tables next to populated ones (per-table structure, requests "
+    "starting inside an absent table's range and running past its end), tables and clusters placed "
     "in-order/permuted/run-wise and beyond 4 GiB / 2^40 (sparse backing object), external data file (offset-0 "
     "cluster with COPIED), raw backing files shorter/equal/longer than the image, virtual sizes that are not a "
     "cluster multiple, header extensions of every padding; requests: exhaustive sector pairs on tiny images, "
@@ -31,7 +32,7 @@ ASSUMPTIONS = [
 ]
 MINIMA = {
     "quick": {"reads_compared": 5000, "extl2_cases": 30, "v2_cases": 20, "compressed_clusters": 200, "backing_cases": 30,
-              "external_data_cases": 10, "far_cases": 5, "unaligned_compressed_offsets": 50},
+              "external_data_cases": 10, "far_cases": 5, "unaligned_compressed_offsets": 50, "l2_table_structured_cases": 8},
     "thorough": {"reads_compared": 50000},
 }
 MECH = "qcow2.read"
@@ -52,6 +53,8 @@ def plan(tier: str, seed: int) -> list[dict]:
         cases.append({"k": "img", "i": 10_000 + i, "cb": rng.choice([9, 12, 16]), "ext": False, "v": 3, "placement": "shuffle", "far": True, "weight": 3})
     for i in range(4 if tier == "quick" else 30):
         cases.append({"k": "img", "i": 20_000 + i, "cb": 16 if i % 2 else 14, "ext": True, "v": 3, "placement": "shuffle", "far": True, "weight": 3})
+    for i in range(16 if tier == "quick" else 200):
+        cases.append({"k": "img", "i": 40_000 + i, "cb": rng.choice([9, 9, 10]), "ext": False, "v": rng.choice([2, 3, 3]), "placement": "shuffle", "tabled": True, "weight": 2})
     big = [20, 21] if tier == "quick" else [20, 21, 21, 21, 20, 21]
     for i, cb in enumerate(big):
         cases.append({"k": "img", "i": 30_000 + i, "cb": cb, "ext": i % 2 == 1, "v": 3, "placement": "shuffle", "big": True, "weight": 25})
@@ -78,6 +81,8 @@ def run(case: dict, ctx) -> dict:
         ncl = rng.choice([1, 3, rng.randrange(1, 60), rng.randrange(1, 200)])
     else:
         ncl = rng.choice([1, 2, rng.randrange(1, 24), rng.randrange(1, 40)])
+    if case.get("tabled"):
+        ncl = l2_entries * rng.randrange(3, 7) + rng.randrange(0, l2_entries)
     ncl = max(1, ncl)
     tail = rng.choice([0, 0, SECTOR * rng.randrange(0, cs // SECTOR)])
     size = ncl * cs - min(tail, cs - SECTOR)
@@ -87,7 +92,26 @@ def run(case: dict, ctx) -> dict:
     if external:
         alphabet = alphabet.replace("C", "")
     mode = rng.random()
-    if mode < 0.15 and not big:
+    tabled = False
+    if (case.get("tabled") or (mode >= 0.45 and mode < 0.6)) and ncl > l2_entries:
+        # per-L2-table structure: whole tables absent (L1 entry 0) right next to populated ones
+        kinds = []
+        for t in range(-(-ncl // l2_entries)):
+            tm = rng.choice(["absent", "absent", "dense", "mixed", "sparse"])
+            n_t = min(l2_entries, ncl - t * l2_entries)
+            if tm == "absent":
+                kinds += ["U"] * n_t
+            elif tm == "dense":
+                kinds += [rng.choice("NZ" if ver == 3 else "N")] * n_t
+            elif tm == "sparse":
+                seg = ["U"] * n_t
+                seg[0] = seg[-1] = "N"
+                seg[rng.randrange(n_t)] = rng.choice(alphabet)
+                kinds += seg
+            else:
+                kinds += [rng.choice(alphabet) for _ in range(n_t)]
+        tabled = True
+    elif mode < 0.15 and not big:
         kinds = ["N"] * ncl  # physically contiguous runs across L2 boundaries need plain runs
     elif mode < 0.25:
         kinds = [rng.choice(alphabet) if rng.random() < 0.2 else "U" for _ in range(ncl)]
@@ -161,6 +185,14 @@ def run(case: dict, ctx) -> dict:
         units.append(cs // 32)
     reqs, exhaustive = gen_requests(rng, size, units, n_random=40 if quick else 150, max_len=(1 << 20) if not big else (5 << 20),
                                     pair_cap=300 if not big else 40)
+    cov = l2_entries * cs
+    if cov < size:
+        # start somewhere inside one L2 table's range and run past its end (and the next one's)
+        for _ in range(10):
+            t = rng.randrange(0, max(1, size // cov))
+            a = t * cov + rng.randrange(0, cov)
+            reqs.append((a, min(rng.randrange(cov // 2, 2 * cov + 2), 3 << 20)))
+    res["cnt"]["l2_table_structured_cases"] = int(tabled)
     compare_reads(q, model, reqs, res, MECH, byte_cap=(32 << 20) if not big else (64 << 20))
     infl = [e for e in ctx.inflate.events if "qcow2.py" in e["site"]]
     for e in infl:
